@@ -41,6 +41,26 @@ struct Task : tulz::Runnable {
     }
 };
 
+// a task given to the template start(): the pool wraps a COPY of the functor in its own Runnable; the task counts as destroyed
+// when the last copy of the functor is gone
+int g_functor_copies[MAXTASK];
+struct Functor {
+    int id;
+    explicit Functor(int i) : id(i) { g_functor_copies[id]++; }
+    Functor(const Functor &o) : id(o.id) { g_functor_copies[id]++; }
+    Functor &operator=(const Functor &) = default;
+    ~Functor() { if (--g_functor_copies[id] == 0) { vs_event(EV_DESTROY, id, 0); vs_cell_add(CELL_DESTROYED, 1); } }
+    void operator()(int &arg) const {
+        vs_event(EV_RUN_ENTER, id, arg);
+        vs_cell_add(CELL_RUNNING, 1);
+        vs_point(3);
+        vs_cell_add(CELL_RUNNING, -1);
+        vs_cell_add(CELL_RAN, 1);
+        vs_event(EV_RUN_EXIT, id, 0);
+    }
+};
+int g_functor_arg = 77;
+
 int pred_destroyed(void *arg) { return vs_cell_get(CELL_DESTROYED) >= (long)arg; }
 
 struct Spec {
@@ -56,6 +76,7 @@ struct TaskInfo { int submit = -1, enter = -1, exit = -1, destroy = -1, enters =
 void run(const Spec &s) {
     auto pool = std::make_unique<tulz::ThreadPool>();
     g_pool = pool.get();
+    for (int &c : g_functor_copies) c = 0;
     pool->setExpiryTimeout(s.expiry);
     pool->setMaxThreadCount(s.maxThreads);
     int submitted = 0;
@@ -71,6 +92,13 @@ void run(const Spec &s) {
             int id = submitted++;
             vs_event(EV_SUBMIT, id, 0);
             pool->start(new Task(id));
+            pending_since_barrier.push_back(id);
+            break;
+        }
+        case 'F': {      // template start(): functor + one lvalue argument
+            int id = submitted++;
+            vs_event(EV_SUBMIT, id, 0);
+            pool->start(Functor(id), g_functor_arg);
             pending_since_barrier.push_back(id);
             break;
         }
@@ -156,7 +184,7 @@ std::string ev_name(const vs_ev &e) {
 void add(VSuite &suite, Spec s, int bound, const std::string &flavour) {
     VProgram p;
     p.name = s.script + "-max" + std::to_string(s.maxThreads) + (s.expiry >= 0 ? "-expiry" + std::to_string(s.expiry) : "");
-    p.describe = "owner script " + s.script + " (S start task, C clear, X stop, W wait until all submitted tasks are destroyed, U update, A advance the clock past the expiry timeout, G getters), maxThreadCount=" +
+    p.describe = "owner script " + s.script + " (S start task, F start a functor through the template start(), C clear, X stop, W wait until all submitted tasks are destroyed, U update, A advance the clock past the expiry timeout, G getters), maxThreadCount=" +
                  std::to_string(s.maxThreads) + ", expiryTimeout=" + std::to_string(s.expiry) + "; every task has a scheduling point inside run()";
     p.bound = bound;
     p.unlock_points = true;         // ThreadPool publishes flags outside its mutexes: make every release a scheduling point
@@ -194,6 +222,8 @@ bool provider(const std::string &prop, const std::string &tier, const std::strin
     { Spec s = base; s.script = "X"; s.maxThreads = 1; add(suite, s, 1, flavour); }
     { Spec s = base; s.script = "SWXX"; s.maxThreads = 1; add(suite, s, 3, flavour); }
     { Spec s = base; s.script = "SSCSX"; s.maxThreads = 2; add(suite, s, 2, flavour); }
+    { Spec s = base; s.script = "FFWX"; s.maxThreads = 2; add(suite, s, 2, flavour); }          // template start(T, Args&&...)
+    { Spec s = base; s.script = "FSCFX"; s.maxThreads = 1; add(suite, s, 3, flavour); }
     if (thorough) {
         { Spec s = base; s.script = "SSSWX"; s.maxThreads = 3; add(suite, s, 2, flavour); }
         { Spec s = base; s.script = "SSSSWX"; s.maxThreads = 2; add(suite, s, 2, flavour); }
